@@ -97,6 +97,53 @@ Proof.
   exfalso. apply (find_none _ _ F) in Hin. cbn in Hin. lia.
 Qed.
 
+(* ------------------------------------------------------------------ the group tree: ancestor rows *)
+
+(** ancestor ids of (b, g) in a list of job_group_self_and_ancestors rows *)
+Definition aids (l : list (Z * Z * Z * Z)) (b g : Z) : list Z :=
+  map (fun r => let '(_, _, a, _) := r in a) (filter (fun r => let '(b', g', _, _) := r in (b' =? b) && (g' =? g)) l).
+
+Lemma anc_ids_aids s b g : anc_ids s b g = aids (ancestors s) b g.
+Proof. reflexivity. Qed.
+
+Lemma aids_app l1 l2 b g : aids (l1 ++ l2) b g = aids l1 b g ++ aids l2 b g.
+Proof. unfold aids. rewrite filter_app, map_app. reflexivity. Qed.
+
+Lemma aids_none l b g : (forall b' g' a x, In (b', g', a, x) l -> ~ (b' = b /\ g' = g)) -> aids l b g = [].
+Proof.
+  intros H. unfold aids. induction l as [|[[[b' g'] a] x] l IH]; cbn [filter map]; [reflexivity|].
+  destruct ((b' =? b) && (g' =? g)) eqn:E.
+  - exfalso. apply (H b' g' a x); [left; reflexivity | lia].
+  - apply IH. intros; eapply H; right; eassumption.
+Qed.
+
+Lemma in_aids l b g a : In a (aids l b g) -> exists x, In (b, g, a, x) l.
+Proof.
+  unfold aids. intros H. apply in_map_iff in H. destruct H as ([[[b' g'] a'] x] & <- & Hin).
+  apply filter_In in Hin. destruct Hin as [Hin Hk]. assert (b' = b) by lia. assert (g' = g) by lia. subst. eauto.
+Qed.
+
+(** rows exist only for existing groups, an ancestor's id is at most the group's, a group's ancestor-or-self ids are
+    distinct, and group keys belong to batches created so far *)
+Record GInv (s : state) : Prop := {
+  gi_ref : forall b g a x, In (b, g, a, x) (ancestors s) -> In (b, g) (gkl s) /\ a <= g;
+  gi_nodup : forall b g, NoDup (anc_ids s b g);
+  gi_fresh : forall b g, In (b, g) (gkl s) -> b < next_batch s }.
+
+Lemma GInv_view s s' : ancestors s' = ancestors s -> gkl s' = gkl s -> next_batch s' = next_batch s -> GInv s -> GInv s'.
+Proof.
+  intros Ha Hg Hn []. constructor.
+  - rewrite Ha, Hg; assumption.
+  - intros b g. unfold anc_ids, anc_rows. rewrite Ha. apply gi_nodup0.
+  - rewrite Hg, Hn; assumption.
+Qed.
+
+Lemma GInv_no_rows s b g : GInv s -> ~ In (b, g) (gkl s) -> anc_ids s b g = [].
+Proof.
+  intros G Hn. rewrite anc_ids_aids. apply aids_none. intros b' g' a x Hin [-> ->].
+  apply Hn. apply (gi_ref s G _ _ _ _ Hin).
+Qed.
+
 (* ------------------------------------------------------------------ the invariant *)
 
 Record SInv (s : state) : Prop := {
@@ -104,7 +151,8 @@ Record SInv (s : state) : Prop := {
   si_refs : forall b j g, In (b, j, g) (kgl s) -> In (b, g) (gkl s) /\ blook (bkl s) b <> None;  (* its group and batch exist *)
   si_att : forall c, In c (attempts s) -> jlook (kgl s) (a_batch c) (a_job c) <> None;      (* an attempt's job exists *)
   si_res : forall b j a r q, In ([b; j; a; r], [q]) (attempt_res s) -> jlook (kgl s) b j <> None;
-  si_fresh : forall b u p, In (b, u, p) (bkl s) -> b < next_batch s }.
+  si_fresh : forall b u p, In (b, u, p) (bkl s) -> b < next_batch s;
+  si_g : GInv s }.
 
 Record AInv4 (s : state) : Prop := {
   ai_job : AggOK agg_job kf_job s;
@@ -116,7 +164,8 @@ Definition BInv (s : state) : Prop := SInv s /\ AInv4 s.
 
 Lemma BInv_init : BInv init.
 Proof.
-  split; constructor; cbn; try (intros; contradiction); intros k0; reflexivity.
+  split; constructor; cbn; try (intros; contradiction); try (intros k0; reflexivity).
+  constructor; cbn; try (intros; contradiction). intros; constructor.
 Qed.
 
 (* ------------------------------------------------------------------ changes that billing does not see *)
@@ -150,6 +199,7 @@ Proof.
   - rewrite sv_kg0, sv_att0; assumption.
   - rewrite sv_kg0, sv_res0; assumption.
   - rewrite sv_bk0, sv_next0; assumption.
+  - apply (GInv_view s s'); assumption.
   - apply (AggOK_congr agg_job kf_job s s'); auto. intros; split; [reflexivity | apply billed_of_view; assumption].
   - apply (AggOK_congr agg_group kf_group s s'); auto.
     intros; split; [apply kf_group_view; assumption | apply billed_of_view; assumption].
@@ -243,7 +293,8 @@ Proof.
   pose proof (update_attempt_frame s o req) as F. cbv zeta in F.
   destruct F as (F1&F2&F3&F4&F5&F6&F7&F8&F9&F10&F11&F12&F13&F14).
   split.
-  - destruct I. constructor; unfold kgl, gkl, bkl in *; rewrite ?F1, ?F3, ?F6, ?F13, ?F14; try assumption.
+  - destruct I. constructor; try (apply (GInv_view s); [assumption | unfold gkl; rewrite F3; reflexivity | assumption | assumption]);
+      unfold kgl, gkl, bkl in *; rewrite ?F1, ?F3, ?F6, ?F13, ?F14; try assumption.
     intros c Hc. rewrite F11 in Hc. unfold replace_attempt in Hc. apply in_map_iff in Hc. destruct Hc as (x & Hx & Hin).
     destruct (same_attempt x (clamp o req)).
     + subst c. destruct (clamp_keys o req) as (C1&C2&_). rewrite C1, C2, Kb, Kj.
@@ -280,7 +331,7 @@ Lemma BInv_append_attempt s c :
   BInv (s <| attempts ::= fun l => l ++ [c] |>).
 Proof.
   intros [I A] Hc Hj. set (s1 := s <| attempts ::= fun l => l ++ [c] |>). split.
-  - destruct I. constructor; try assumption.
+  - destruct I. constructor; try assumption; try exact si_g0.
     intros x Hx. change (attempts s1) with (attempts s ++ [c]) in Hx. apply in_app_or in Hx.
     destruct Hx as [Hx | [<- | []]]; [apply si_att0, Hx | apply find_job_some_iff, Hj].
   - destruct A. constructor.
@@ -312,14 +363,15 @@ Proof.
   - destruct rq as [r q]. unfold add_one_resource. destruct (existsb _ (attempt_res s)); [exact I|]. cbv zeta.
     set (s1 := s <| attempt_res ::= fun m => m ++ [([b; j; a; r], [q])] |>).
     assert (I1 : SInv s1).
-    { destruct I. constructor; try assumption.
+    { destruct I. constructor; try assumption; try exact si_g0.
       intros b' j' a' r' q' Hin. change (attempt_res s1) with (attempt_res s ++ [([b; j; a; r], [q])]) in Hin.
       apply in_app_or in Hin. destruct Hin as [Hin | [E | []]]; [eapply si_res0, Hin|].
       injection E as <- <- _ _ _. apply find_job_some_iff, Hj. }
     destruct (match find_attempt s1 b j a with Some at_ => billed at_ | None => 0 end =? 0); [exact I1|].
     pose proof (bill_frame s1 b j (match find_attempt s1 b j a with Some at_ => billed at_ | None => 0 end) (r, q)) as F.
     cbv zeta in F. destruct F as (F1&F2&F3&F4&F5&F6&F7&F8&F9&F10&F11&F12&F13&F14).
-    destruct I1. constructor; unfold kgl, gkl, bkl in *; rewrite ?F1, ?F3, ?F6, ?F11, ?F13, ?F14; assumption.
+    destruct I1. constructor; try (apply (GInv_view s1); [assumption | unfold gkl; rewrite F3; reflexivity | assumption | assumption]);
+      unfold kgl, gkl, bkl in *; rewrite ?F1, ?F3, ?F6, ?F11, ?F13, ?F14; assumption.
   - apply AInv4_add_one_resource, A.
 Qed.
 
